@@ -8,7 +8,7 @@ tmp=$(mktemp -d /tmp/verif-setup-XXXXXX)
 trap 'rm -rf "$tmp"' EXIT
 cp spec/*.tla spec/trace/*.tla "$tmp"/
 for f in "$tmp"/*.tla; do
-  (cd "$tmp" && java -cp /opt/veriftools/tla/tla2tools.jar:/opt/veriftools/tla/CommunityModules-deps.jar tla2sany.SANY "$(basename "$f")" > "$f.sany" 2>&1) || { echo "SANY failed for $f"; cat "$f.sany"; exit 1; }
+  (cd "$tmp" && java -Djava.io.tmpdir="$tmp" -cp /opt/veriftools/tla/tla2tools.jar:/opt/veriftools/tla/CommunityModules-deps.jar tla2sany.SANY "$(basename "$f")" > "$f.sany" 2>&1) || { echo "SANY failed for $f"; cat "$f.sany"; exit 1; }
   if grep -q "Fatal errors\|\*\*\* Errors" "$f.sany"; then echo "SANY errors in $f"; cat "$f.sany"; exit 1; fi
 done
 cp -r harness "$tmp/h" && cp /repo/go.sum "$tmp/h/go.sum" && (cd "$tmp/h" && go build -tags verif -o "$tmp/harness" .)
